@@ -60,11 +60,10 @@ def stepReflect (toks : List String) : String :=
     | some ds =>
       let setRes := schemaSetFromFiles ds
       let setStr :=
-        if collides ds then "collide"
-        else match setRes with
-          | .ok reg => "ok " ++ prShape reg
-          | .err _ => "err"
-          | .panic _ => "panic"
+        match setRes with
+        | .ok reg => "ok " ++ prShape reg
+        | .err _ => "err"
+        | .panic _ => "panic"
       "set=" ++ setStr ++ " cache=[ " ++ " ".intercalate (cacheLoop ds [] ds.allMsgs) ++ " ]"
 
 def step (line : String) : String :=
